@@ -1,3 +1,61 @@
 import Mrpro.Model.Ops
+import Mrpro.Lemmas.Basic
+import Mrpro.Lemmas.Linear
+/-! # C02 — superposition: every model operator (both code paths) is linear
+
+`IsLin op` : `op (a•x + b•y) = a•op x + b•op y` pointwise for all scalars and vectors — over any
+commutative ring; `IsSemiLin` is not needed because the adjoint code paths conjugate the
+*parameters* (csm, matrix, twiddles), never the data. -/
 namespace C02
+open M
+variable {K : Type} [CommRing K] [StarRing K]
+
+/-- pointwise superposition for maps between vectors -/
+def IsLin (op : (Nat → K) → (Nat → K)) : Prop :=
+  ∀ (a b : K) (x y : Nat → K) (i : Nat), op (fun t => a * x t + b * y t) i = a * op x i + b * op y i
+
+theorem padCrop_linear (old new : Nat) : IsLin (padCrop (K := K) old new) := M.padCrop_linear old new
+theorem gather_linear (G : Nat) (idx : Nat → Option Nat) : IsLin (gather (K := K) G idx) := M.gather_linear G idx
+theorem scatterAdd_linear (S : Nat) (idx : Nat → Option Nat) : IsLin (scatterAdd (K := K) S idx) :=
+  M.scatterAdd_linear S idx
+theorem corr3_linear (c : Bool) (k0 k1 k2 : K) (n : Nat) : IsLin (corr3 c k0 k1 k2 n) := M.corr3_linear c k0 k1 k2 n
+theorem diagMul_linear (d : Nat → K) : IsLin (diagMul d) := M.diagMul_linear d
+theorem diagMulConj_linear (d : Nat → K) : IsLin (diagMulConj d) := M.diagMulConj_linear d
+theorem sensFwd_linear (n : Nat) (csm : Nat → K) : IsLin (sensFwd n csm) := M.sensFwd_linear n csm
+theorem sensAdj_linear (c n : Nat) (csm : Nat → K) : IsLin (sensAdj c n csm) := M.sensAdj_linear c n csm
+theorem matVec_linear (n : Nat) (A : Nat → K) : IsLin (matVec n A) := M.matVec_linear n A
+theorem matVecH_linear (m n : Nat) (A : Nat → K) : IsLin (matVecH m n A) := M.matVecH_linear m n A
+theorem permute_linear (σ : Nat → Nat) : IsLin (permute (K := K) σ) := M.permute_linear σ
+theorem fftshift_linear (n : Nat) : IsLin (fftshift (K := K) n) := M.fftshift_linear n
+theorem ifftshift_linear (n : Nat) : IsLin (ifftshift (K := K) n) := M.ifftshift_linear n
+theorem dft_linear (n : Nat) (c : K) (w : Nat → K) : IsLin (dft n c w) := M.dft_linear n c w
+theorem idft_linear (n : Nat) (c : K) (w : Nat → K) : IsLin (idft n c w) := M.idft_linear n c w
+theorem centredDft_linear (n : Nat) (c : K) (w : Nat → K) : IsLin (centredDft n c w) := M.centredDft_linear n c w
+theorem centredIdft_linear (n : Nat) (c : K) (w : Nat → K) : IsLin (centredIdft n c w) := M.centredIdft_linear n c w
+
+/-- composition of linear maps is linear (operator products, pipelines over several axes) -/
+theorem comp_linear (f g : (Nat → K) → (Nat → K)) (hf : IsLin f) (hg : IsLin g) : IsLin (fun x => f (g x)) :=
+  M.comp_linear f g hf hg
+/-- sums and scalings of linear maps are linear -/
+theorem add_linear (f g : (Nat → K) → (Nat → K)) (hf : IsLin f) (hg : IsLin g) :
+    IsLin (fun x i => f x i + g x i) := M.add_linear f g hf hg
+theorem smul_linear (c : K) (f : (Nat → K) → (Nat → K)) (hf : IsLin f) : IsLin (fun x i => c * f x i) :=
+  M.smul_linear c f hf
+
+/-- lifting a linear map to one axis of an N-D tensor keeps it linear (every batch layout) -/
+theorem applyAlong_linear (inner n m : Nat) (op : (Nat → K) → (Nat → K)) (h : IsLin op) :
+    IsLin (applyAlong inner n m op) := M.applyAlong_linear inner n m op h
+
+/-- a linear map sends the zero vector to zero -/
+theorem linear_zero (op : (Nat → K) → (Nat → K)) (h : IsLin op) (i : Nat) : op (fun _ => 0) i = 0 :=
+  M.linear_zero op h i
+
+/-- An operator that applies a *real-linear* map `R` separately to real and imaginary parts
+(WaveletOp, GridSamplingOp, sparse projection with real weights) is complex-linear:
+with `z = (re, im)`, `(a + i b)·z ↦ (a·re − b·im, a·im + b·re)` commutes with `R ⊕ R`. -/
+theorem reim_split_complex_linear {V W : Type} [AddCommGroup V] [AddCommGroup W] [Module K V] [Module K W]
+    (R : V →ₗ[K] W) (a b : K) (re im : V) :
+    (R (a • re - b • im), R (a • im + b • re)) = (a • R re - b • R im, a • R im + b • R re) :=
+  M.reim_split_complex_linear R a b re im
+
 end C02
